@@ -87,7 +87,7 @@ Proof. split; reflexivity. Qed.
 
 (** the domains are inhabited by non-trivial inputs (evaluated through the executable models) *)
 Example C17_domains_nonempty :
-  forallb (fun i => in_dom i && rv_eqb (duck_of c17_facts i) (spark_of i))
+  forallb (fun i => in_dom c17_facts i && rv_eqb (duck_of c17_facts i) (spark_of i))
     [IElementAt [10; 20; 30] (ILit (-2)); ITryElementAt [10; 20; 30] (ICol 3); IGetItem [10; 20; 30] (ILit 2);
      IArrayMin [3; 1; 2]; IArrayMax [3; 1; 2]; IArrayPosition (Some [5; 5; 4; 1]) 4; IFactorial 20; IRint (-3) 4;
      IDayOfWeek 19753; IOverlay [104; 101; 108; 108; 111] [88; 89] 2 3; IArraysOverlap [3; 1; 2] [2; 9];
@@ -98,12 +98,24 @@ Proof. vm_compute. reflexivity. Qed.
 
 (** ---- refutations: genuine defects of the unchanged tree that the faithful model exhibits ---- *)
 
-(** slice returns length+1 elements (LIST_SLICE's end is inclusive and the end is start+length) *)
-Theorem C17_refuted_slice :
-  (forall (l : list Z) s n, 1 <= s -> 0 <= n -> duck_slice c17_slice l s n = spark_slice l s (n + 1)) /\
-  duck_slice c17_slice [3; 1; 2] 1 2 = [3; 1; 2] /\ spark_slice [3; 1; 2] 1 2 = [3; 1].
-Proof. split; [exact (slice_one_too_many c17_slice eq_refl) | split; reflexivity]. Qed.
+(** slice: LIST_SLICE's end is inclusive.  The verdict follows the generated shape: with end = start+length-1 the
+    emulation is exact; with end = start+length (the unchanged tree) it returns length+1 elements. *)
+Definition C17_slice_verdict_statement : Prop :=
+  if slice_cfg_ok c17_slice
+  then forall (l : list Z) s n, 1 <= s -> 0 <= n -> duck_slice c17_slice l s n = spark_slice l s n
+  else (forall (l : list Z) s n, 1 <= s -> 0 <= n -> duck_slice c17_slice l s n = spark_slice l s (n + 1)) /\
+       exists (l : list Z) s n, 1 <= s /\ 0 <= n /\ duck_slice c17_slice l s n <> spark_slice l s n.
+Theorem C17_refuted_slice : C17_slice_verdict_statement.
+Proof.
+  unfold C17_slice_verdict_statement. destruct (slice_cfg_ok c17_slice) eqn:E.
+  - exact (slice_ok c17_slice E).
+  - first [ split; [exact (slice_one_too_many c17_slice eq_refl)
+                   | exists [3; 1; 2], 1, 2; split; [lia | split; [lia | vm_compute; discriminate]]]
+          | exfalso; vm_compute in E; discriminate ].
+Qed.
 Print Assumptions C17_refuted_slice.
+Definition C17_slice_is_exact : bool := slice_cfg_ok c17_slice.
+Eval vm_compute in C17_slice_is_exact.
 
 (** element_at with an index expression that contains a literal but is not one (sqlframe subtracts 1, sqlglot does
     not add it back), and with an index of visible integer type (sqlglot adds 1, sqlframe did not subtract) *)
@@ -148,5 +160,5 @@ Print Assumptions C17_refuted_null_guards.
 
 (** hence the full statement is false of the faithful model *)
 Theorem C17_full_is_false : ~ C17_full.
-Proof. intro H. specialize (H (ISlice [3; 1; 2] 1 2)). vm_compute in H. discriminate. Qed.
+Proof. intro H. specialize (H (IRint 5 2)). vm_compute in H. discriminate. Qed.
 Print Assumptions C17_full_is_false.
